@@ -445,7 +445,12 @@ func runBatch(p Property, o DriveOpts, agg *Agg, sp batchSpec, proc int, race bo
 				agg.AddInconclusive(fmt.Sprintf("case %d hangs outside the library", idx))
 			}
 		case strings.Contains(tail1, "MEMORY-CAP exceeded"):
-			agg.AddViolation(idx, "call consumes memory without bound (memory cap hit twice, also in isolation): unbounded recursion or allocation", map[string]any{"case": idx, "output_tail": tail1})
+			if p.ID() == "C10" {
+				agg.AddViolation(idx, "call consumes memory without bound (memory cap hit twice, also in isolation): unbounded recursion or allocation", map[string]any{"case": idx, "last_call_logged_before_death": json.RawMessage(orNull(lastInput(fmt.Sprintf("%s-iso%d", prefix, idx), idx))), "output_tail": tail1})
+			} else {
+				// outside C10 the workload itself (generated values, mutant sets) is the usual suspect: not a verdict
+				agg.AddInconclusive(fmt.Sprintf("case %d exceeds the memory cap also in isolation (workload size?)", idx))
+			}
 		default:
 			agg.AddViolation(idx, "worker process died while executing this case (fatal error / unrecoverable panic): "+firstLine(tail1), map[string]any{"case": idx, "last_call_logged_before_death": json.RawMessage(orNull(lastInput(fmt.Sprintf("%s-iso%d", prefix, idx), idx))), "output_head": head(tail1, 1500)})
 		}
